@@ -363,8 +363,22 @@ def sortArray (m : Mem α) (arr : Nat) : M (Mem α) := do
     let bufs ← m.bufs.set b { bf with slots := sorted ++ bf.slots.drop h.n_crystal }
     pure { m with bufs := bufs }
 
-/-- `Crystal_AddCrystal` (:486-532, as repaired by C14-1..3).  The copy `*tmp` is stored in slot `n_crystal`
-with its volume recomputed (C: `*a_cryst = *tmp; free(tmp); a_cryst->volume = …` — two writes to one slot). -/
+/-- the tail of `Crystal_AddCrystal` once `tmp = Crystal_MakeCopy(crystal)` succeeded:
+`a_cryst = &c_array->crystal[c_array->n_crystal++]; *a_cryst = *tmp; free(tmp);`
+`a_cryst->volume = Crystal_UnitCellVolume(a_cryst, NULL); qsort(…)`
+(the two writes to the one slot are done as one: the copy with its volume recomputed). -/
+def storeCopy (vol : Cell α → α) (m : Mem α) (a : Nat) (tmp : Nat) : M (Mem α) := do
+  let h ← m.hdrs.get a
+  let tc ← m.css.get tmp
+  match h.crystal with
+  | none => .error .nullDeref
+  | some b =>
+    let m ← m.wrSlot b h.n_crystal { tc with volume := vol tc.cell }
+    let hdrs ← m.hdrs.set a { h with n_crystal := h.n_crystal + 1 }
+    let css ← m.css.free tmp
+    sortArray { m with hdrs := hdrs, css := css } a
+
+/-- `Crystal_AddCrystal` (:486-532 of the unchanged tree, as repaired by C14-1..3). -/
 def Crystal_AddCrystal (vol : Cell α → α) (m : Mem α) (crystal : Option CPtr) (arr : Option Nat) :
     M (Mem α × Int × Option Err) := do
   let a := arr.getD 0
@@ -384,17 +398,8 @@ def Crystal_AddCrystal (vol : Cell α → α) (m : Mem α) (crystal : Option CPt
         match tmp with
         | none => .error .nullDeref       -- allocation failure is not modelled
         | some tmp =>
-          let h ← m.hdrs.get a
-          let tc ← m.css.get tmp
-          match h.crystal with
-          | none => .error .nullDeref
-          | some b =>
-            let m ← m.wrSlot b h.n_crystal { tc with volume := vol tc.cell }
-            let hdrs ← m.hdrs.set a { h with n_crystal := h.n_crystal + 1 }
-            let css ← m.css.free tmp
-            let m := { m with hdrs := hdrs, css := css }
-            let m ← sortArray m a
-            pure (m, 1, none)
+          let m ← storeCopy vol m a tmp
+          pure (m, 1, none)
 
 /-! ### `Crystal_ReadFile` (as repaired by C14-4)
 
@@ -494,6 +499,12 @@ def overBuiltin (m : Mem α) (a : Nat) (n : Nat) : M Bool :=
     pure (decide ((n : Int) > (h.n_alloc : Int) - (h.n_crystal : Int)))
   else pure false
 
+/-- the second loop as a whole: nothing to do when the temporary array never got a vector (empty file) -/
+def mergeStage (vol : Cell α → α) (m : Mem α) (hn : Hdr) (a : Nat) : M (Mem α × Option Err) :=
+  match hn.crystal with
+  | none => pure (m, none)
+  | some nb => mergeAll vol m nb a (List.range hn.n_crystal)
+
 /-- everything after `fclose(fp)` -/
 def readCommit (vol : Cell α → α) (m : Mem α) (na : Nat) (a : Nat) : M (Mem α × Int × Option Err) := do
   let hn ← m.hdrs.get na
@@ -504,9 +515,7 @@ def readCommit (vol : Cell α → α) (m : Mem α) (na : Nat) (a : Nat) : M (Mem
   else if ← overBuiltin m a hn.n_crystal then
     readFail m na false (some ⟨XRL_ERROR_RUNTIME, "Extending internal is crystal array is not allowed"⟩)
   else
-    let (m, e) ← (match hn.crystal with
-      | none => pure (m, none)                                          -- empty file: nothing to add
-      | some nb => mergeAll vol m nb a (List.range hn.n_crystal))
+    let (m, e) ← mergeStage vol m hn a
     match e with
     | some e => readFail m na false (some e)
     | none =>
